@@ -133,176 +133,169 @@ theorem timed_enable_ms_sound (c : Ctx) :
   · exact Triple.weaken (Triple.ifRaise c _ _ _ _) (fun l h => ⟨h.1.1, h.1.2, limit_of_and_cond c l _ _ h.2⟩)
   exact Triple.ret c _ _ _ (fun l h => h)
 
+/-- the four theorems above as one fact about the functions the model calls: whatever a request passes in, what comes
+back from `get_and_verify_*` is inside the coil's limits -/
+theorem verify_sound (c : Ctx) : VerifySound c :=
+  ⟨fun _ _ h => call_of_triple _ _ (pulse_ms_sound c) h, fun _ _ h => call_of_triple _ _ (pulse_power_sound c) h,
+   fun _ _ h => call_of_triple _ _ (hold_power_sound c) h, fun _ _ h => call_of_triple _ _ (timed_enable_ms_sound c) h⟩
+
 /-- `timed_enable(...)`: all four parameters are verified before the single platform command is built -/
 theorem timedEnable_cmds (c : Ctx) (s s' : Driver.St) (te hp ms pw : PyVal) (cmds : List Cmd)
-    (h : doTimedEnable c s te hp ms pw = .ok (s', cmds)) : ∀ cmd ∈ cmds, CmdOK c cmd := by
-  simp only [doTimedEnable, bind, Except.bind] at h
-  cases h1 : vPulseMs c ms with
-  | error e => simp [h1] at h
-  | ok pd =>
-    cases h2 : vPulsePower c pw with
-    | error e => simp [h1, h2] at h
-    | ok pp =>
-      cases h3 : vTimedMs c te with
-      | error e => simp [h1, h2, h3] at h
-      | ok hd =>
-        cases h4 : vHoldPower c hp with
-        | error e => simp [h1, h2, h3, h4] at h
-        | ok hh =>
-          simp only [h1, h2, h3, h4, pure, Except.pure, Except.ok.injEq, Prod.mk.injEq] at h
-          obtain ⟨_, rfl⟩ := h
-          intro cmd hc
-          simp only [List.mem_singleton] at hc
-          subst hc
-          exact ⟨call_of_triple _ _ (pulse_power_sound c) h2, call_of_triple _ _ (pulse_ms_sound c) h1,
-            call_of_triple _ _ (hold_power_sound c) h4, call_of_triple _ _ (timed_enable_ms_sound c) h3⟩
+    (h : doTimedEnable c s te hp ms pw = .ok (s', cmds)) : ∀ cmd ∈ cmds, CmdOK c cmd :=
+  (timedEnable_cmds' c (verify_sound c) s s' te hp ms pw cmds h).2
 
 /-- `_pulse_now` with verified values emits a hardware pulse, a re-verified timed enable, or the software-timed
 enable whose hold power is the verified pulse power -/
 theorem pulseNow_cmds (c : Ctx) (s s' : Driver.St) (pm pp : PyVal) (cmds : List Cmd) (hd : DurOK c pm) (hp : PowerOK c pp)
-    (h : pulseNow c s pm pp = .ok (s', cmds)) : ∀ cmd ∈ cmds, CmdOK c cmd := by
-  unfold pulseNow at h
-  split at h
-  · exact timedEnable_cmds c s s' _ _ _ _ cmds h
-  · simp only [bind, Except.bind] at h
-    cases h1 : pyCmp "<" (.int 0) pm with
-    | error e => simp [h1] at h
-    | ok a =>
-      cases h2 : pyCmp "<=" pm (c.env "max_pulse") with
-      | error e => simp [h1, h2] at h
-      | ok b =>
-        simp only [h1, h2] at h
-        split at h
-        · simp only [pure, Except.pure, Except.ok.injEq, Prod.mk.injEq] at h
-          obtain ⟨_, rfl⟩ := h
-          intro cmd hc; simp only [List.mem_singleton] at hc; subst hc
-          exact ⟨hp, hd⟩
-        · simp only [pure, Except.pure, Except.ok.injEq, Prod.mk.injEq] at h
-          obtain ⟨_, rfl⟩ := h
-          intro cmd hc; simp only [List.mem_singleton] at hc; subst hc
-          exact ⟨hp, by simp⟩
+    (h : pulseNow c s pm pp = .ok (s', cmds)) : ∀ cmd ∈ cmds, CmdOK c cmd :=
+  (pulseNow_cmds' c (verify_sound c) s s' pm pp cmds hd hp h).2
 
-/-- every platform command built by one `pulse / enable / timed_enable / disable` request respects the limits:
-pulse length within max_pulse_ms, powers in [0,1] and within max_pulse_power / the effective hold limit, and a
-permanent enable never with hold power 0 — for every configuration and every parameter value -/
-theorem op_cmds_within_limits (c : Ctx) (s s' : Driver.St) (op : Op) (cmds : List Cmd)
-    (h : doOp c s op = .ok (s', cmds)) : ∀ cmd ∈ cmds, CmdOK c cmd := by
-  cases op with
-  | pulse ms pw =>
-    simp only [doOp, bind, Except.bind] at h
-    cases h1 : vPulseMs c ms with
-    | error e => simp [h1] at h
-    | ok pm =>
-      cases h2 : vPulsePower c pw with
-      | error e => simp [h1, h2] at h
-      | ok pp =>
-        simp only [h1, h2] at h
-        exact pulseNow_cmds c s s' pm pp cmds (call_of_triple _ _ (pulse_ms_sound c) h1)
-          (call_of_triple _ _ (pulse_power_sound c) h2) h
-  | enable ms pw hp =>
-    simp only [doOp, bind, Except.bind] at h
-    cases h1 : vPulseMs c ms with
-    | error e => simp [h1] at h
-    | ok pm =>
-      cases h2 : vPulsePower c pw with
-      | error e => simp [h1, h2] at h
-      | ok pp =>
-        cases h3 : vHoldPower c hp with
-        | error e => simp [h1, h2, h3] at h
-        | ok hh =>
-          cases h4 : pyCmp "==" hh (.flt 0) with
-          | error e => simp [h1, h2, h3, h4] at h
-          | ok z =>
-            cases z with
-            | true => simp [h1, h2, h3, h4, throw, throwThe, MonadExceptOf.throw] at h
-            | false =>
-              simp only [h1, h2, h3, h4, pure, Except.pure, Except.ok.injEq, Prod.mk.injEq, Bool.false_eq_true,
-                if_false] at h
-              obtain ⟨_, rfl⟩ := h
-              intro cmd hc; simp only [List.mem_singleton] at hc; subst hc
-              exact ⟨call_of_triple _ _ (pulse_power_sound c) h2, by
-                simp only [Bool.false_eq_true, if_false]
-                exact ⟨call_of_triple _ _ (pulse_ms_sound c) h1, call_of_triple _ _ (hold_power_sound c) h3, h4⟩⟩
-  | timedEnable te hp ms pw => exact timedEnable_cmds c s s' _ _ _ _ cmds h
-  | disable =>
-    simp only [doOp, doDisable, pure, Except.pure, Except.ok.injEq, Prod.mk.injEq] at h
-    obtain ⟨_, rfl⟩ := h
-    intro cmd hc; simp only [List.mem_singleton] at hc; subst hc; trivial
-  | advance dt =>
-    simp only [doOp, pure, Except.pure, Except.ok.injEq, Prod.mk.injEq] at h
-    obtain ⟨_, rfl⟩ := h
-    simp
+/-- every platform command built by one `pulse / enable / timed_enable / disable` request — with or without
+`max_wait_ms` — respects the limits: pulse length within max_pulse_ms, powers in [0,1] and within max_pulse_power / the
+effective hold limit, and a permanent enable never with hold power 0 — for every configuration and every parameter
+value; and a call that the PSU delays is stored with verified arguments only -/
+theorem op_cmds_within_limits (c : Ctx) (s s' : Driver.St) (op : Op) (cmds : List Cmd) (hs : PendsOK c s)
+    (h : doOp c s op = .ok (s', cmds)) : PendsOK c s' ∧ ∀ cmd ∈ cmds, CmdOK c cmd :=
+  op_cmds' c (verify_sound c) s s' op cmds hs h
 
-/-- the whole command log of any sequence of requests and clock advances -/
+/-- the whole command log of any sequence of requests, clock advances and timer firings -/
 def runOps (c : Ctx) : Driver.St → List Op → List (Nat × Cmd)
   | _, [] => []
   | s, op :: rest => (step c s op).2.2 ++ runOps c (step c s op).1 rest
 
-/-- **C08, command log**: for every coil configuration, every starting state and every sequence of
-pulse / enable / timed_enable / disable requests with arbitrary parameters interleaved with clock advances
-(pending software timers firing in between), every command that reaches the platform driver respects the limits. -/
-theorem cmd_within_limits (c : Ctx) (s : Driver.St) (ops : List Op) : ∀ tc ∈ runOps c s ops, CmdOK c tc.2 := by
+/-- **C08, command log**: for every coil configuration, every starting state whose pending calls are verified (the
+initial state has none) and every sequence of pulse / enable / timed_enable / disable requests with arbitrary parameters,
+with or without `max_wait_ms` and whatever the PSU answers, interleaved with clock advances and with timers fired one by
+one in ANY order the event loop may choose (`fire`), every command that reaches the platform driver — at once, from a
+software timer, or from a PSU-delayed `_pulse_now` / `_enable_now` — respects the limits. -/
+theorem cmd_within_limits (c : Ctx) (s : Driver.St) (ops : List Op) (hs : PendsOK c s) :
+    ∀ tc ∈ runOps c s ops, CmdOK c tc.2 := by
   induction ops generalizing s with
   | nil => simp [runOps]
   | cons op rest ih =>
     intro tc h
     simp only [runOps, List.mem_append] at h
+    have h1 := step_cmds c (verify_sound c) s op hs
     rcases h with h | h
-    · unfold step at h
-      split at h
-      · rename_i dt
-        have := advanceTo_cmds 3 s (s.now + dt) tc h
-        rw [this]; trivial
-      · split at h
-        · rename_i s1 o1 hop
-          simp only [List.mem_map, List.mem_append] at h
-          obtain ⟨cmd, hc, rfl⟩ := h
-          rcases hc with hc | hc
-          · exact op_cmds_within_limits c s s1 _ o1 hop cmd hc
-          · rw [fireDue_cmds _ cmd hc]; trivial
-        · simp only [List.mem_map] at h
-          obtain ⟨cmd, hc, rfl⟩ := h
-          rw [fireDue_cmds _ cmd hc]; trivial
-    · exact ih _ tc h
+    · exact h1.2 tc h
+    · exact ih _ h1.1 tc h
 
 /-- the state after any sequence of harness steps -/
 def runState (c : Ctx) : Driver.St → List Op → Driver.St
   | s, [] => s
   | s, op :: rest => runState c (step c s op).1 rest
 
-/-- one harness step (request + everything due, or a clock advance past any number of deadlines) keeps the
-software-pulse invariant: a coil switched on by a software-timed pulse has its switch-off timer pending, strictly
-in the future -/
-theorem step_keeps_soft_timer (c : Ctx) (s : Driver.St) (op : Op) (h : TimerInv s) : TimerInv (step c s op).1 := by
-  unfold step
-  split
-  · rename_i dt
-    exact advanceTo_inv 3 s (s.now + dt) h.pre (by have := pending_le_two s; omega) (by omega)
-  · split
-    · rename_i s1 o1 hop
-      exact (fireDue_inv s1 (doOp_pre c s s1 _ o1 h.pre hop).1).1
-    · exact (fireDue_inv s h.pre).1
+/-- the invariant of every reachable state: a software pulse has its timer, a held coil has its watchdog, and no
+registered timer has been missed -/
+def Inv (c : Ctx) (s : Driver.St) : Prop := SInv c s ∧ NoOverdue s
 
-/-- **C08, software-timed pulses**: after every history of requests and clock advances, whenever the coil is on
-because of a software-timed pulse, its `timed_disable` timer is registered for a strictly later instant — so the
-pulse cannot outlive its timer "whatever else happens in between" (other pulses, enables, disables, the hold-limit
-timer firing, same-instant coincidences). -/
-theorem soft_pulse_always_has_timer (c : Ctx) (ops : List Op) : TimerInv (runState c {} ops) := by
-  have key : ∀ (s : Driver.St), TimerInv s → TimerInv (runState c s ops) := by
-    induction ops with
-    | nil => intro s h; exact h
-    | cons op rest ih => intro s h; exact ih _ (step_keeps_soft_timer c s op h)
-  exact key {} (fun h => by simp at h)
+theorem init_inv (c : Ctx) : Inv c {} := by
+  refine ⟨⟨?_, ?_, ?_⟩, ?_⟩ <;> simp [Pre, LimitInv, LimHold, NoOverdue, dues]
+
+theorem runState_inv (c : Ctx) (ops : List Op) : ∀ s, Inv c s → Inv c (runState c s ops) := by
+  induction ops with
+  | nil => intro s h; exact h
+  | cons op rest ih => intro s h; exact ih _ (step_inv c s op h.1 h.2)
+
+/-- one harness step (request + everything due, a clock advance past any number of deadlines, or one timer fired out of
+several that are due) keeps the software-pulse invariant: a coil switched on by a software-timed pulse has its switch-off
+timer pending and not missed -/
+theorem step_keeps_soft_timer (c : Ctx) (s : Driver.St) (op : Op) (h : Inv c s) : TimerInv (step c s op).1 :=
+  let h1 := step_inv c s op h.1 h.2
+  timerInv_of _ h1.1.1 h1.2
+
+/-- **C08, software-timed pulses**: after every history of requests (immediate or delayed by the PSU), clock advances
+and timer firings in any order, whenever the coil is on because of a software-timed pulse, its `timed_disable` timer is
+registered and its deadline has not passed — so the pulse cannot outlive its timer "whatever else happens in between"
+(other pulses, enables, disables, the hold-limit timer firing, delayed calls arriving, same-instant coincidences). -/
+theorem soft_pulse_always_has_timer (c : Ctx) (ops : List Op) : TimerInv (runState c {} ops) :=
+  let h := runState_inv c ops {} (init_inv c)
+  timerInv_of _ h.1.1 h.2
 
 /-- … and when the clock reaches that instant the coil is switched off: firing at a time at which `timed_disable`
 is due emits `disable` and clears the software-pulse flag -/
 theorem soft_timer_fires (s : Driver.St) (d : Nat) (h : s.timedDisable = some d) (hd : d ≤ s.now) :
     Cmd.disable ∈ (fireDue s).2 ∧ (fireDue s).1.softOn = false ∧ (fireDue s).1.timedDisable = none := by
+  have h1 : fireTd s = doDisable { s with timedDisable := none } := by simp [fireTd, h, hd]
   unfold fireDue
-  simp only [h, hd, if_true, doDisable]
-  cases hl : s.limitDue with
-  | none => simp
-  | some l => by_cases hc : l ≤ s.now <;> simp [hc]
+  rw [h1]
+  refine ⟨by simp [doDisable], ?_, ?_⟩ <;> simp [fireLim, doDisable]
+
+/-- the same for the event loop picking that timer explicitly (`fire td`), in whatever order with the other timers -/
+theorem soft_timer_fires_explicitly (c : Ctx) (s s' : Driver.St) (o : List Cmd) (h : fire c s .td = some (s', o)) :
+    Cmd.disable ∈ o ∧ s'.softOn = false ∧ s'.timedDisable = none := by
+  unfold fire at h
+  cases hd : dueOf s .td with
+  | none => simp [hd] at h
+  | some d =>
+    simp only [hd] at h
+    split at h
+    · simp only [Option.some.injEq, runTimer, doDisable, Prod.mk.injEq] at h
+      obtain ⟨rfl, rfl⟩ := h
+      simp
+    · simp at h
+
+/-- **C08, hold limit (liveness)**: after every history of requests, clock advances and timer firings, on a coil with
+`max_hold_duration` configured, whenever the coil is held on by `_enable_now` (since `t`: the instant the platform
+command was sent — for an enable delayed by the PSU that is the moment it is switched ON, not the moment it was
+requested), the `enable_limit_reached` timer is registered for exactly `t + max_hold_duration` and that instant has not
+passed without the timer running. -/
+theorem limit_always_armed (c : Ctx) (ops : List Op) (hmd : (c.cfg "max_hold_duration").truthy = true) (t : Nat)
+    (ht : (runState c {} ops).holdSince = some t) :
+    (runState c {} ops).limitDue = some (t + secsToMs (c.cfg "max_hold_duration")) ∧
+      (runState c {} ops).now ≤ t + secsToMs (c.cfg "max_hold_duration") := by
+  have h := runState_inv c ops {} (init_inv c)
+  have h1 := h.1.2.1 hmd t ht
+  exact ⟨h1, h.2 _ ((mem_dues _ _).2 (Or.inr (Or.inl h1)))⟩
+
+/-- … and when the event loop runs that timer (alone or in any order with others due at the same instant) the coil is
+switched off and the ghost `holdSince` is cleared -/
+theorem limit_timer_disables (c : Ctx) (s s' : Driver.St) (o : List Cmd) (h : fire c s .lim = some (s', o)) :
+    Cmd.disable ∈ o ∧ s'.holdSince = none ∧ s'.limitDue = none := by
+  unfold fire at h
+  cases hd : dueOf s .lim with
+  | none => simp [hd] at h
+  | some d =>
+    simp only [hd] at h
+    split at h
+    · simp only [Option.some.injEq, runTimer, doDisable, Prod.mk.injEq] at h
+      obtain ⟨rfl, rfl⟩ := h
+      simp
+    · simp at h
+
+/-- the ghost is honest: `_enable_now` sends exactly one permanent `enable` and marks the coil held from now (or keeps an
+earlier mark); `disable` sends `disable` and clears the mark — `holdSince` is set exactly where the platform is told to
+hold and cleared exactly where it is told to release -/
+theorem hold_ghost_follows_commands (c : Ctx) (s : Driver.St) (pm pp h : PyVal) :
+    (enableNow c s pm pp h).2 = [.enable pp pm h false] ∧
+      (enableNow c s pm pp h).1.holdSince = some (s.holdSince.getD s.now) ∧
+      (doDisable s).2 = [.disable] ∧ (doDisable s).1.holdSince = none := by
+  refine ⟨rfl, ?_, rfl, rfl⟩
+  unfold enableNow
+  simp only []
+  split <;> rfl
+
+/-- **seeded class C08-limit-armed-early**: an enable that the PSU delays is limited by `max_hold_duration` from the
+moment it is switched on.  When the delayed `_enable_now` runs at `t` (the event loop fires the pending call) on a coil
+that was not held, the watchdog is armed for `t + max_hold_duration` at that moment — a `disable` that came in between
+request and switch-on cannot have removed it. -/
+theorem delayed_enable_limited_from_switch_on (c : Ctx) (s s' : Driver.St) (i d : Nat) (pm pp hp : PyVal) (o : List Cmd)
+    (hmd : (c.cfg "max_hold_duration").truthy = true) (hi : Inv c s) (hp' : s.pend[i]? = some (.enableNow d pm pp hp))
+    (hfree : s.holdSince = none) (h : fire c s (.pend i) = some (s', o)) :
+    o = [.enable pp pm hp false] ∧ s'.holdSince = some s'.now ∧
+      s'.limitDue = some (s'.now + secsToMs (c.cfg "max_hold_duration")) := by
+  have hl : s.limitDue = none := by
+    cases hx : s.limitDue with
+    | none => rfl
+    | some x => have := hi.1.2.2 (by simp [hx]); simp [hfree] at this
+  unfold fire at h
+  simp only [dueOf, hp', Option.map_some, Pend.due] at h
+  split at h
+  · simp only [Option.some.injEq, runTimer, hp', runPend, enableNow, hmd, hl, hfree, Option.isNone_none, Bool.and_self,
+      if_true, Option.getD_none, Prod.mk.injEq] at h
+    obtain ⟨rfl, rfl⟩ := h
+    exact ⟨rfl, rfl, rfl⟩
+  · simp at h
 
 /-- non-vacuity: a 300 ms software pulse on a coil with nothing configured, then 125 ms, then another, then 400 ms:
 one enable, one re-armed timer, one disable exactly 300 ms after the second pulse -/
@@ -311,6 +304,17 @@ example :
                     fun k => if k = "max_pulse" then .int 255 else .int 10⟩
     (runOps c {} [.pulse (.int 300) .none, .advance 125, .pulse (.int 300) .none, .advance 400]).map (fun tc => tc.1)
       = [0, 125, 425] := by decide
+
+/-- non-vacuity (PSU): on a coil with max_hold_duration 0.5 s, `enable(max_wait_ms=500)` which the PSU delays by 60 ms,
+a `disable` 10 ms... inside the wait, then the clock: the enable arrives at 60, is held since 60 and is switched off by the
+watchdog at 560 = 60 + 500 (not at 500 = request + 500, and not never) -/
+example :
+    let c : Ctx := ⟨fun k => if k = "allow_enable" then .bool true else if k = "max_hold_duration" then .flt 500000
+                      else if k = "max_pulse_power" then .flt 1000000 else .none,
+                    fun k => if k = "max_pulse" then .int 255 else .int 10⟩
+    (runOps c {} [.enableW .none .none .none (.int 500) (.flt 60000000), .disable, .advance 1000]).map
+        (fun tc => (tc.1, match tc.2 with | .disable => 0 | .enable _ _ _ _ => 1 | _ => 2))
+      = [(0, 0), (60, 1), (560, 0)] := by decide
 
 /-! ## The hand model does exactly what the source does
 
@@ -328,51 +332,89 @@ theorem vPulseMs_int (c : Ctx) : ∀ x v, vPulseMs c x = .ok v → v.isInt = tru
 theorem vTimedMs_int (c : Ctx) : ∀ x v, vTimedMs c x = .ok v → v.isInt = true :=
   fun _ _ h => (call_of_triple _ _ (timed_enable_ms_sound c) h).1
 
-/-- the translated method and the keyword arguments a request of the model stands for (`max_wait_ms` not given) -/
-def srcOf : Op → Option (List ESt × List (String × PyVal))
-  | .pulse ms pw => some (Gen.DriverOps.pulse, [("pulse_ms", ms), ("pulse_power", pw)])
-  | .enable ms pw hp => some (Gen.DriverOps.enable, [("pulse_ms", ms), ("pulse_power", pw), ("hold_power", hp)])
+/-- the translated method, the keyword arguments a request of the model stands for, and — for a request with
+`max_wait_ms` — the PSU's answer the model took as its input -/
+def srcOf : Op → Option (List ESt × List (String × PyVal) × Option PyVal)
+  | .pulse ms pw => some (Gen.DriverOps.pulse, [("pulse_ms", ms), ("pulse_power", pw)], none)
+  | .enable ms pw hp => some (Gen.DriverOps.enable, [("pulse_ms", ms), ("pulse_power", pw), ("hold_power", hp)], none)
   | .timedEnable te hp ms pw => some (Gen.DriverOps.timed_enable,
-      [("timed_enable_ms", te), ("hold_power", hp), ("pulse_ms", ms), ("pulse_power", pw)])
-  | .disable => some (Gen.DriverOps.disable, [])
+      [("timed_enable_ms", te), ("hold_power", hp), ("pulse_ms", ms), ("pulse_power", pw)], none)
+  | .disable => some (Gen.DriverOps.disable, [], none)
+  | .pulseW ms pw mw w => some (Gen.DriverOps.pulse, [("pulse_ms", ms), ("pulse_power", pw), ("max_wait_ms", mw)], some w)
+  | .enableW ms pw hp mw w => some (Gen.DriverOps.enable,
+      [("pulse_ms", ms), ("pulse_power", pw), ("hold_power", hp), ("max_wait_ms", mw)], some w)
+  | .timedEnableW te hp ms pw mw => some (Gen.DriverOps.timed_enable,
+      [("timed_enable_ms", te), ("hold_power", hp), ("pulse_ms", ms), ("pulse_power", pw), ("max_wait_ms", mw)], none)
   | .advance _ => none
+  | .fire _ => none
 
-/-- **C08, tie to the source**: for every configuration, every state of the two software timers, every request and
-every argument value (None, bool, int, float, NaN, str), and whatever the PSU and the other collaborators answer,
-running the *translated source* of the request and folding its calls on the platform driver and the delay manager over
-the state gives exactly what the hand model computes: the same accept/refuse verdict, the same platform commands in the
-same order with the same powers and durations, the same `timed_disable` and `enable_limit_reached` deadlines. -/
+/-- the environment's answers agree with the model's input: the PSU's `get_wait_time_for_pulse` returns `w` -/
+def PsuOK (ora : Oracle) : Option PyVal → Prop
+  | none => True
+  | some w => PsuAnswers ora w
+
+/-- **C08, tie to the source**: for every configuration, every state of the software timers and the pending calls, every
+request — with or without `max_wait_ms` — and every argument value (None, bool, int, float, NaN, str), and whatever the
+PSU (its wait time `w` is arbitrary: zero, positive, fractional, negative, not a number) and the other collaborators
+answer, running the *translated source* of the request and folding its calls on the platform driver and the delay manager
+over the state gives exactly what the hand model computes: the same accept/refuse verdict, the same platform commands in
+the same order with the same powers and durations, the same `timed_disable` and `enable_limit_reached` deadlines, and the
+same PSU-delayed calls (callback, deadline, keyword arguments). -/
 theorem requests_refine_source (c : Ctx) (ora : Oracle) (s : Driver.St) (op : Op) (prog : List ESt)
-    (args : List (String × PyVal)) (hc : ConfigSane c) (hop : srcOf op = some (prog, args)) :
+    (args : List (String × PyVal)) (w : Option PyVal) (hc : ConfigSane c) (hop : srcOf op = some (prog, args, w))
+    (hw : PsuOK ora w) :
     hand s (doOp c s op) = gen s (callE c ora prog args) := by
   cases op with
   | pulse ms pw =>
-    simp only [srcOf, Option.some.injEq, Prod.mk.injEq] at hop; obtain ⟨rfl, rfl⟩ := hop
+    simp only [srcOf, Option.some.injEq, Prod.mk.injEq] at hop; obtain ⟨rfl, rfl, rfl⟩ := hop
     exact pulse_refines c ora s ms pw hc.1 (vPulseMs_int c) (vTimedMs_int c)
   | enable ms pw hp =>
-    simp only [srcOf, Option.some.injEq, Prod.mk.injEq] at hop; obtain ⟨rfl, rfl⟩ := hop
+    simp only [srcOf, Option.some.injEq, Prod.mk.injEq] at hop; obtain ⟨rfl, rfl, rfl⟩ := hop
     exact enable_refines c ora s ms pw hp hc.2
   | timedEnable te hp ms pw =>
-    simp only [srcOf, Option.some.injEq, Prod.mk.injEq] at hop; obtain ⟨rfl, rfl⟩ := hop
+    simp only [srcOf, Option.some.injEq, Prod.mk.injEq] at hop; obtain ⟨rfl, rfl, rfl⟩ := hop
     exact timed_enable_refines c ora s te hp ms pw (vPulseMs_int c) (vTimedMs_int c)
   | disable =>
-    simp only [srcOf, Option.some.injEq, Prod.mk.injEq] at hop; obtain ⟨rfl, rfl⟩ := hop
+    simp only [srcOf, Option.some.injEq, Prod.mk.injEq] at hop; obtain ⟨rfl, rfl, rfl⟩ := hop
     exact disable_refines c ora s
+  | pulseW ms pw mw w' =>
+    simp only [srcOf, Option.some.injEq, Prod.mk.injEq] at hop; obtain ⟨rfl, rfl, rfl⟩ := hop
+    exact pulseW_refines c ora s ms pw mw w' hw hc.1 (vPulseMs_int c) (vTimedMs_int c)
+  | enableW ms pw hp mw w' =>
+    simp only [srcOf, Option.some.injEq, Prod.mk.injEq] at hop; obtain ⟨rfl, rfl, rfl⟩ := hop
+    exact enableW_refines c ora s ms pw hp mw w' hw hc.2
+  | timedEnableW te hp ms pw mw =>
+    simp only [srcOf, Option.some.injEq, Prod.mk.injEq] at hop; obtain ⟨rfl, rfl, rfl⟩ := hop
+    exact timed_enableW_refines c ora s te hp ms pw mw (vPulseMs_int c) (vTimedMs_int c)
   | advance dt => simp [srcOf] at hop
+  | fire x => simp [srcOf] at hop
 
 /-- **a refused request does nothing** (in the source): when the translated `pulse / enable / timed_enable` raises
-(limit exceeded, negative or ill-typed value, hold power 0), none of the calls it made before raising touched the
-platform driver or the two timers — nothing was clamped or passed through. -/
+(limit exceeded, negative or ill-typed value, hold power 0, a PSU answer that cannot be compared), none of the calls it
+made before raising touched the platform driver, the two timers or the pending calls — nothing was clamped, passed
+through or left behind. -/
 theorem refused_request_has_no_effect_in_source (c : Ctx) (ora : Oracle) (s : Driver.St) (op : Op) (prog : List ESt)
-    (args : List (String × PyVal)) (hc : ConfigSane c) (hop : srcOf op = some (prog, args)) (e : Err)
-    (hr : (callE c ora prog args).2 = .error e) :
-    (callE c ora prog args).1.foldl (applyEff s.now) ⟨s.timedDisable, s.limitDue, [], false⟩ = ⟨s.timedDisable, s.limitDue, [], false⟩ := by
-  have h := requests_refine_source c ora s op prog args hc hop
+    (args : List (String × PyVal)) (w : Option PyVal) (hc : ConfigSane c) (hop : srcOf op = some (prog, args, w))
+    (hw : PsuOK ora w) (e : Err) (hr : (callE c ora prog args).2 = .error e) :
+    (callE c ora prog args).1.foldl (applyEff s.now) ⟨s.timedDisable, s.limitDue, [], s.pend, false⟩ =
+      ⟨s.timedDisable, s.limitDue, [], s.pend, false⟩ := by
+  have h := requests_refine_source c ora s op prog args w hc hop hw
   unfold gen at h
   rw [hr] at h
   cases hd : doOp c s op with
   | error x => rw [hd] at h; simp only [hand, Prod.mk.injEq] at h; exact h.2.symm
   | ok r => rw [hd] at h; simp [hand] at h
+
+/-- **the PSU-delayed callbacks** `_pulse_now(pulse_ms, pulse_power)` / `_enable_now(pulse_ms, pulse_power, hold_power)`,
+run by the delay manager with the stored keyword arguments, do what `runPend` of the model does: same commands, same
+timers (the hold limit armed by `_enable_now` itself, at the time it runs), same verdict. -/
+theorem delayed_calls_refine_source (c : Ctx) (ora : Oracle) (s : Driver.St) (pm pp hp : PyVal) (hc : ConfigSane c)
+    (hpm : pm.isInt = true) :
+    hand s (pulseNow c s pm pp) =
+      gen s (callE c ora Gen.DriverOps.p_pulse_now [("pulse_ms", pm), ("pulse_power", pp)]) ∧
+    hand s (.ok (enableNow c s pm pp hp)) =
+      gen s (callE c ora Gen.DriverOps.p_enable_now [("pulse_ms", pm), ("pulse_power", pp), ("hold_power", hp)]) :=
+  ⟨pulse_now_refines c ora s pm pp hpm hc.1 (vPulseMs_int c) (vTimedMs_int c), enable_now_refines c ora s pm pp hp hc.2⟩
 
 /-- **control events** (`event_pulse / event_enable / event_timed_enable / event_disable`, which carry arbitrary
 parameters from configs and shows) do what the methods do: same commands, same timers, same verdict. -/
@@ -403,8 +445,18 @@ example :
                     fun k => if k = "max_pulse" then .int 255 else .int 10⟩
     ConfigSane c ∧
     (gen {} (callE c (fun _ => .none) Gen.DriverOps.pulse [("pulse_ms", .int 300)])) =
-      (true, ⟨some 300, none, [.enable (.flt 1000000) (.int 0) (.flt 1000000) false], false⟩) := by
+      (true, ⟨some 300, none, [.enable (.flt 1000000) (.int 0) (.flt 1000000) false], [], false⟩) := by
   refine ⟨⟨by decide, Or.inl (by decide)⟩, by decide⟩
+
+/-- non-vacuity (PSU): the translated `enable(max_wait_ms=500)` with a PSU that answers 60 ms sends nothing to the platform
+and arms no timer, it leaves one delayed `_enable_now` due at 60 with the verified arguments — computed by running the
+translated source -/
+example :
+    let c : Ctx := ⟨fun k => if k = "allow_enable" then .bool true else if k = "max_pulse_power" then .flt 1000000 else .none,
+                    fun k => if k = "max_pulse" then .int 255 else .int 10⟩
+    (gen {} (callE c (fun _ => .flt 60000000) Gen.DriverOps.enable [("max_wait_ms", .int 500)])) =
+      (true, ⟨none, none, [], [.enableNow 60 (.int 10) (.flt 1000000) (.flt 1000000)], false⟩) := by
+  decide
 
 /-- **entry-point closure** (regenerated from the whole source tree on every run): the only places under `mpf/`
 (outside the platform packages) that actuate a platform driver directly are the three `Driver` paths modelled above
